@@ -637,6 +637,23 @@ def _check_frame(I, c, qn, heap0, args):
 
 # ------------------------------------------------------------------ using a contract at a call site
 
+def _kind_admits_none(kind):
+    if kind in ('none', 'opaque_or_none'):
+        return True
+    if isinstance(kind, str):
+        return False
+    if isinstance(kind, tuple) and kind:
+        t = kind[0]
+        if t in ('opt', 'lazyopt', 'dep', 'where', 'lazy'):
+            return True if t != 'where' else _kind_admits_none(kind[1])
+        if t == 'const':
+            return kind[1] is None
+        if t == 'oneof':
+            return any(_kind_admits_none(k) for k in kind[1:])
+        return False
+    return True
+
+
 def apply_contract(I, c, ex, args, kwargs):
     P = I.path
     caller = I.call_stack[-1] if I.call_stack else (I.top or '<top>')
@@ -656,6 +673,12 @@ def apply_contract(I, c, ex, args, kwargs):
             loc[name] = I.ghost_globals[name] if name in I.ghost_globals else make_symbolic(I, src, name)
         else:
             loc[name] = I.eval_spec(src, loc, G, None, ex.cls)
+    # the contract was proved for arguments of the declared kinds only: a None handed to a
+    # parameter whose kind never is None lies outside what was proved of the callee
+    for pname, kind in c.arg_kinds.items():
+        if pname in loc and loc[pname] is None and not _kind_admits_none(kind):
+            P.fail("%s/pre@%s.argument-domain" % (caller, short), "pre",
+                   "None is passed for parameter %s of %s, whose contract is proved for %r only" % (pname, short, kind))
     site = P.ghost.setdefault('callsites', {})
     k = site.get((caller, qn), 0)
     site[(caller, qn)] = k + 1
@@ -706,6 +729,10 @@ def apply_contract(I, c, ex, args, kwargs):
         if P.choose(2, "may-raise-any") == 1:
             e = ExcVal(Exception, (Opaque('str', 'message'),))
             e.fields['__unknown_subclass__'] = True
+            if getattr(c, 'raised_repr_taint', None):
+                # repr() of what this callee raises may expose its raw arguments (e.g. the input of
+                # a UnicodeDecodeError); str() does not
+                e.fields['__repr_taint__'] = frozenset(c.raised_repr_taint)
             _havoc_on_raise(I, c, loc)
             P.event('raise', 'Exception')
             raise pyvc.Raised(e)
